@@ -370,12 +370,16 @@ fn reset(
     mut commands: Commands,
     mut server_tick: ResMut<ServerTick>,
     mut related_entities: ResMut<RelatedEntities>,
+    mut removal_buffer: ResMut<RemovalBuffer>,
+    mut despawn_buffer: ResMut<DespawnBuffer>,
     clients: Query<Entity, With<ConnectedClient>>,
     mut buffered_events: ResMut<BufferedServerEvents>,
 ) {
     *server_tick = Default::default();
     buffered_events.clear();
     related_entities.clear();
+    removal_buffer.clear();
+    despawn_buffer.clear();
     for entity in &clients {
         commands.entity(entity).despawn();
     }
